@@ -6,7 +6,7 @@
 -/
 import UnicLocale.Lemmas.ExtChar
 
-namespace UL
+namespace UL.Ez
 
 /-- the concrete value the model stores for an abstract locale value -/
 def concreteLoc (v : Spec.LocV) : Locale :=
@@ -16,6 +16,7 @@ def concreteLoc (v : Spec.LocV) : Locale :=
              priv := v.tags } }
 
 namespace Spec
+open UL.Spec
 
 /-! ### one step of `readSections`, per singleton -/
 
@@ -854,7 +855,9 @@ theorem Locale.parse_no_panic (ts : List Bytes) : Locale.parse ts ≠ .panic := 
 
 /-! ### the zone oracle, inverted -/
 
-namespace Spec
+end UL.Ez
+namespace UL.Spec
+open UL UL.Ez
 
 def Zone.isReject : Zone → Bool
   | .reject => true
@@ -945,6 +948,6 @@ theorem zone_reject_inv {ts : List Bytes} (h : zoneOfTokens ts = .reject) :
       split at h <;> cases h
     | none => exact ⟨rfl, rfl⟩
 
-end Spec
+end UL.Spec
 
-end UL
+
